@@ -62,6 +62,27 @@ class C07(common.Prop):
             yield c
         for c in self.long_cases(rng, tier):
             yield c
+        for c in self.empty_cases(rng, tier):
+            yield c
+
+    def empty_cases(self, rng, tier):
+        """a complete file of a pose WITHOUT frames (people and points declared), followed by one or more frames' worth of bytes:
+        the frame count is what the field says - 0 - whatever follows the file"""
+        for i in range(1 if tier == "quick" else 4):
+            D = rng.choice([1, 2, 3])
+            T = rng.choice([1, 2, 3])
+            P = rng.choice([1, 1, 2])
+            comps = [{"name": pg.cps("c0"), "format": pg.cps("XYZ"[:D] + "C"), "points": [pg.cps("p%d" % k) for k in range(T)], "limbs": [], "colors": []}]
+            pose = {"dims": [640, 480, 0], "comps": comps, "fps": pg.b64(25.0), "shape": [0, P, T, D], "cshape": [0, P, T], "dtype": "f32",
+                    "edge": "none", "data": [], "conf": []}
+            w = pg.impl_write(pose)
+            if w[0] != "ok":
+                continue
+            data = w[1]
+            fs = P * T * (D + 1) * 4
+            for kind, args in (("bytes", {}), ("stream", {}), ("stream", {"end_frame": 3})):
+                yield {"file": data, "cuts": list(range(0, len(data))), "src": kind, "args": dict(args), "prime": rng.random() < 0.5, "F": 0,
+                       "suffix": [rng.randrange(256) for _ in range(fs * rng.choice([1, 2, 5]) + rng.choice([0, 0, 3]))]}
 
     def long_cases(self, rng, tier):
         """files whose frame count sits at the edge of 16 bits (the width of the v0.1 frame field; v0.2's has 32): 65535 frames
